@@ -228,17 +228,24 @@ type ProxyOpts struct {
 	LogBuf              *SyncBuffer
 	H2                  *http2.Server
 	BackendRespond      func(w http.ResponseWriter, r *http.Request, rec *Recorded)
-	ForwardURL          string
-	FlushInterval       time.Duration
-	NoFlushInterval     bool // ReverseProxy.FlushInterval = 0 (no periodic flushing) instead of the 100ms default
-	Ctx                 context.Context
-	Listener            net.Listener // default: a fresh *Listener
+	// VerboseFingerprint: fingerprint.VerboseLogs is on while this proxy runs (what -verbose does in the binary;
+	// the log goes nowhere). A logging switch has no say in any header value.
+	VerboseFingerprint bool
+	// InjectorsViaField: the handler is constructed with the same injectors in another order and receives the real list
+	// through its exported HeaderInjectors field afterwards (the field is read on every request).
+	InjectorsViaField bool
+	ForwardURL        string
+	FlushInterval     time.Duration
+	NoFlushInterval   bool // ReverseProxy.FlushInterval = 0 (no periodic flushing) instead of the 100ms default
+	Ctx               context.Context
+	Listener          net.Listener // default: a fresh *Listener
 	// Build, when set, constructs the server (binary-wiring level: fingerproxy.defaultProxyServer with
 	// parsed CLI flags); everything else in ProxyOpts except Listener/BackendRespond is then ignored.
 	Build func(ctx context.Context, b *Backend) *proxyserver.Server
 }
 
 type Proxy struct {
+	restore   func()
 	Srv       *proxyserver.Server
 	Ln        *Listener
 	Backend   *Backend
@@ -322,6 +329,14 @@ func StartProxy(o ProxyOpts) *Proxy {
 	if fi == 0 && !o.NoFlushInterval {
 		fi = 100 * time.Millisecond
 	}
+	ctorInj := inj
+	if o.InjectorsViaField && len(inj) > 1 {
+		ctorInj = append(append([]reverseproxy.HeaderInjector{}, inj[1:]...), inj[0])
+	}
+	if o.VerboseFingerprint {
+		fingerprint.VerboseLogs, fingerprint.Logger = true, log.New(io.Discard, "", 0)
+		p.restore = func() { fingerprint.VerboseLogs, fingerprint.Logger = false, nil }
+	}
 	p.Handler = reverseproxy.NewHTTPHandler(u, &httputil.ReverseProxy{
 		ErrorLog:      logger,
 		FlushInterval: fi,
@@ -330,7 +345,8 @@ func StartProxy(o ProxyOpts) *Proxy {
 			logger.Printf("proxy error: %v", err)
 			rw.WriteHeader(http.StatusBadGateway)
 		},
-	}, inj)
+	}, ctorInj)
+	p.Handler.HeaderInjectors = inj
 	p.Handler.PreserveHost = o.PreserveHost
 	if o.Probe {
 		p.Handler.IsProbeRequest = reverseproxy.IsKubernetesProbeRequest
@@ -388,6 +404,9 @@ func StartProxy(o ProxyOpts) *Proxy {
 func (p *Proxy) Stop() error {
 	p.Cancel()
 	err := <-p.ServeErr
+	if p.restore != nil {
+		p.restore()
+	}
 	p.Transport.CloseIdleConnections()
 	p.Backend.Close()
 	// backend handlers may still be in their answer delay (see Backend.serve): let them run out before
